@@ -189,7 +189,7 @@ pub fn run(ctx: &Ctx) -> Outcome {
     hook::install();
     install_panic_capture();
     if ctx.shard == 0 {
-        for mode in [UNIFORM, CONSTANT, SAMEBIN, MIXED, SPLITTING] {
+        for mode in [UNIFORM, CONSTANT, SAMEBIN, MIXED, SPLITTING, MODGROUPS, REVERSED, ALLHIGH] {
             for n in [0u64, 1, 2, 7, 8, 9, 12, 20, 40] {
                 for pred in 0..5u8 {
                     for variant in 0..3u8 {
